@@ -9,7 +9,7 @@ sys.path.insert(0, HERE); sys.path.insert(0, os.path.join(HERE, 'tools'))
 import seedcheck, evalseed
 keep = '--keep' in sys.argv
 only = [a for a in sys.argv[1:] if not a.startswith('--')]
-for patch in sorted(glob.glob('/tmp/refac_out/C*/r*/patch.diff')):
+for patch in sorted(glob.glob(os.environ.get('REFAC_GLOB', '/tmp/refac_out/C*/r*/patch.diff'))):
     vdir = os.path.dirname(patch)
     pid = os.path.basename(os.path.dirname(vdir)); name = os.path.basename(vdir)
     tag = '%s-%s' % (pid, name)
